@@ -198,6 +198,18 @@ impl<'tcx> Extractor<'tcx> {
             gs.push(s(gens.param_at(i, tcx).name.to_string()));
         }
         o.push(("generics".into(), J::A(gs)));
+        // trait bounds in scope (own + inherited): [self type, trait path]
+        let mut bs = vec![];
+        let preds = tcx.predicates_of(def_id).instantiate_identity(tcx);
+        for (clause, _) in preds {
+            let clause = clause.skip_norm_wip();
+            if let Some(tp) = clause.as_trait_clause() {
+                let tp = tp.skip_binder();
+                let st = with_no_trimmed_paths!(tp.self_ty().to_string());
+                bs.push(J::A(vec![s(st), s(self.path(tp.def_id()))]));
+            }
+        }
+        o.push(("bounds".into(), J::A(bs)));
         o.push(("arg_count".into(), n(body.arg_count)));
         // locals
         let mut names: BTreeMap<usize, String> = BTreeMap::new();
